@@ -327,7 +327,7 @@ COMMON = {
                        + ["dropped-before-admission"]
                        + [k + ":" + x for k in KINDS for x in ("rejected", "admit-at-once", "reject-at-once", "sleep",
                                                                  "admit-after-wait", "reject-after-wait")],
-    "model_modules": ["TR.Model.RateLimiter", "TR.Lemmas.RateLimiter"],
+    "model_modules": ["TR.Model.RateLimiter", "TR.Lemmas.RateLimiter", "TR.Mutants.AcquireWaitIsOk"],
     "lean_files": ["TR.Model.RateLimiter", "TR.Lemmas.RateLimiter"],
     "sizes": (600, 30000),
     "rule": "seeded random op sequences (bursts of L-1/L/L+1/more callers at one instant, polls, drops in every phase, advances biased "
